@@ -78,6 +78,17 @@ func c08Bodies() []string {
 			}
 		}
 	}
+	// qualified identifiers as the last element of multi-line lists inside indented blocks, with
+	// comments on their own lines before the closing bracket / before the next element
+	for _, own := range []string{"", "\t\t// own line\n", "\t\t/* own block */\n", "\n\t\t// after blank\n"} {
+		for _, last := range []string{"a.V", "q.Default", "bb.W"} {
+			out = append(out,
+				"func g() {\n\ta.Fn(\n\t\t"+last+",\n"+own+"\t)\n\t_ = []interface{}{\n\t\ta.C,\n"+own+"\t\t"+last+",\n"+own+"\t}\n}\n",
+				"func h() {\n\tif a.V > 0 {\n\t\t_ = map[string]interface{}{\n\t\t\t\"k\": "+last+",\n"+strings.ReplaceAll(own, "\t\t", "\t\t\t")+"\t\t}\n\t}\n}\n",
+				"func k(\n\tx a.T,\n"+strings.ReplaceAll(own, "\t\t", "\t")+"\ty q.Q,\n"+strings.ReplaceAll(own, "\t\t", "\t")+") {\n}\n",
+			)
+		}
+	}
 	return out
 }
 
@@ -150,7 +161,7 @@ func checkC08(c *Ctx) {
 		}
 	}
 	r0 := rand.New(rand.NewSource(c.Seed))
-	if c.Quick() && len(srcs) > 300 {
+	if c.Quick() && len(srcs) > 3000 {
 		r0.Shuffle(len(srcs), func(i, j int) { srcs[i], srcs[j] = srcs[j], srcs[i] })
 		srcs = srcs[:300]
 	}
